@@ -219,6 +219,14 @@ pub fn run(ctx: &Ctx) -> Report {
             cases2.push(Prog { class: (l % 4), method: 1, tid: tid0, ops }.to_case("build"));
         }
     }
+    // (2e) after a panic that was caught elsewhere in the process while the library serialised an
+    // application attribute (inside add_fingerprint / add_message_integrity / build / write_into /
+    // into_owned): building, sealing and reading back work as before
+    for k in 0..5u8 {
+        for ops in [vec![Op::Poison(k), alpha[0].clone(), Op::Fp], vec![Op::Poison(k), alpha[6].clone(), Op::Sha1(0), Op::Sha256(0), Op::Fp], vec![alpha[6].clone(), Op::Poison(k), Op::Sha256(1), Op::Fp], vec![Op::Poison(k), Op::Custom(3), Op::IntoOwned, Op::Sha1(1), Op::Fp]] {
+            cases2.push(Prog { class: 2, method: 1, tid: tid0, ops }.to_case("build"));
+        }
+    }
     // (2c) builders holding n = 1..=48 attributes of distinct types (the builder keeps its attributes
     // and their types in small inline tables), unsealed / sealed / sealed after into_owned
     for n in 1..=48usize {
